@@ -32,8 +32,9 @@ TRUSTED = [
     "the measure statement is exported without ';' (open known finding measure-without-semicolon, pinned by tests/test_qasm.py): for circuits "
     "with a Measurement the validity clause is reported as that finding and the remaining clauses are checked on the text with the ';' supplied",
     "Spec/QasmStrict.v (strict lexer + parser written from the grammar of the specification) and Spec/Qasm.v / QasmSem.v (semantics, "
-    "qelib1.inc by hand) are the oracle; 'every emitted text is accepted by the strict reader' is PROVED per statement shape only for "
-    "the definitions the exporter emits and CHECKED (vm_compute of strict_parse on the model's text) on every generated circuit",
+    "qelib1.inc by hand) are the oracle; PROVED for all values: every printed number is one numeral token and every gate statement line lexes to the tokens of a statement "
+    "(export_number_lexes, export_statement_lexes); the whole-text assembly and the parser's acceptance of those tokens are CHECKED "
+    "(vm_compute of strict_parse on the model's text) on every generated measurement-free circuit",
     "translators tools/translate/qasm_tr.py and gates_tr.py (fail-closed)",
     "QubitCircuit.gates is read through the public attributes name/targets/controls/arg_value/classical_controls of Gate and "
     "targets/classical_store of Measurement; 0-d arrays, numpy integer qubit indices and gates with a wrong number of parameters are not modelled",
